@@ -4,7 +4,7 @@ CONSTANTS
   Req <- MCReq
   Aborting = {}
   NT = 3
-  Registrar = 0
+  Registrar = 4
   Collector = 5
   Mutant = "none"
 INVARIANTS Inv_C02_Atomic Inv_C02_NoTrace Inv_C05_NoLost Inv_C05_RegKept Inv_C05_Serial Inv_C05_SeesEarlier Inv_C06_NotifyAfterStore Inv_C10_Independent
